@@ -36,7 +36,7 @@ import PanqecVerif.Proofs.LatHollowRhombicCodeThinA
 import PanqecVerif.Proofs.LatHollowRhombicCodeThinB
 import PanqecVerif.Proofs.LatHollowRhombicCodeThinC
 import PanqecVerif.Proofs.LatHollowRhombicCodeRankF
-import PanqecVerif.Proofs.LatHollowRhombicCodeRankP
+import PanqecVerif.Proofs.LatHollowRhombicCodeRankQ
 import PanqecVerif.Proofs.Lat2DRankSubset
 
 namespace Panqec.C01HollowRhombicCode
@@ -373,6 +373,38 @@ theorem n_cubes (Lx Ly Lz : Nat) :
   unfold Rhombic.half at this
   simpa using this
 
+/-- the number of vertices in the hole and next to it where triangles are missing: `abc + ab + ac + bc`
+    for a hole of `a × b × c = (Lx−3) × (Ly−4) × (Lz−4)` vertices (`0` without hole) -/
+def holeTerm (Lx Ly Lz : Nat) : Nat :=
+  if 3 ≤ Lx ∧ 4 ≤ Ly ∧ 4 ≤ Lz then
+    (Lx - 3) * (Ly - 4) * (Lz - 4) + (Ly - 4) * (Lz - 4) + (Lx - 3) * (Lz - 4) + (Lx - 3) * (Ly - 4)
+  else 0
+
+/-- the number of listed triangles (every size of the family): `4(Lx−1)(Ly−1)Lz` as for
+    `RhombicPlanarCode`, minus four per vertex in the hole and two per vertex next to it, on each of
+    its six faces, i.e. `4(abc + ab + ac + bc)` -/
+theorem n_triangles (Lx Ly Lz : Nat) (h : Family Lx Ly Lz) :
+    (triangles Lx Ly Lz).length + 4 * holeTerm Lx Ly Lz = 4 * ((Lx - 1) * (Ly - 1) * Lz) := by
+  obtain ⟨hx, hy, hz⟩ := h
+  unfold holeTerm
+  by_cases hh : 3 ≤ Lx ∧ 4 ≤ Ly ∧ 4 ≤ Lz
+  · rw [if_pos hh]
+    exact triangles_count_hole hh.1 hh.2.1 hh.2.2
+  · rw [if_neg hh, Nat.mul_zero, Nat.add_zero]
+    exact triangles_count_noHole (by omega) hx hy
+
+/-- `n_stabilizers` in closed form (every size of the family): the cubes of `n_cubes` and the
+    triangles of `n_triangles` -/
+theorem n_stabilizers (Lx Ly Lz : Nat) (h : Family Lx Ly Lz) :
+    (lattice Lx Ly Lz).toCodeData.stabs.length + (Lx - 4) * ((Ly - 5) * (Lz - 5)) / 2 +
+      4 * holeTerm Lx Ly Lz =
+    (Lx * ((Ly + 1) * (Lz - 1)) + 1) / 2 + 4 * ((Lx - 1) * (Ly - 1) * Lz) := by
+  have h1 := n_cubes Lx Ly Lz
+  have h2 := n_triangles Lx Ly Lz h
+  show (cubes Lx Ly Lz ++ triangles Lx Ly Lz).length + _ + _ = _
+  rw [List.length_append]
+  omega
+
 /-- THE C01 STATEMENT, POSITIVE SIDE, EVERY NON-DEFICIENT SIZE of the supported family: the matrices
     that `stabilizer_matrix`, `logicals_x`, `logicals_z` of the generic code model assemble from this
     lattice model form a valid `[[n, 1]]` stabilizer code — generators pairwise commute, logicals
@@ -449,5 +481,11 @@ example : HasRank (2 * (lattice 6 5 8).toCodeData.n) (lattice 6 5 8).rowsH
 example : Lat2D.IndepGenerators (lattice 3 6 6) (rankFamily 3 6 6) :=
   generators_independent 3 6 6 (by decide)
 example : (cubes 5 6 7).length = 104 := by have := n_cubes 5 6 7; omega
+/-- `(5, 6, 7)`: 104 cubes and 448 triangles -/
+example : (lattice 5 6 7).toCodeData.stabs.length = 552 := by
+  have := n_stabilizers 5 6 7 (by decide)
+  have e : holeTerm 5 6 7 = 28 := by decide
+  rw [e] at this
+  omega
 
 end Panqec.C01HollowRhombicCode
